@@ -30,9 +30,9 @@ FS == <<102, 115>>
 x == EVar(NX)
 y == EVar(NY)
 AllToks == {"D", "A", "R", "Dy", "Ry", "{", "I{", "F{", "L{", "W{", "}", "C", "C1", "S", "Q", "Dx", "Fr", "G", "Cg",
-            "T{", "K", "B", "Sw", "So"}
+            "T{", "K", "B", "Sw", "So", "Lx{", "Ox{"}
 SmallToks == {"D", "A", "R", "{", "F{", "L{", "W{", "}", "C", "Q"}
-Openers == {"{", "I{", "F{", "L{", "W{", "T{"}
+Openers == {"{", "I{", "F{", "L{", "W{", "T{", "Lx{", "Ox{"}
 TK == <<116, 107>>
 TICK == <<116, 105, 99, 107>>
 WN(i) == <<119, 48 + (i % 10), 48 + (i \div 10)>>
@@ -67,6 +67,9 @@ Compound(t, i, body) ==        \* a sequence of statements
       [] t = "T{" -> <<SIf(ECall(EVar(TICK), <<>>), body)>>
       [] t = "F{" -> <<SFn(NF, <<>>, FALSE, body \o <<SReturn(EFunc(<<>>, FALSE, ClosureBody))>>)>>
       [] t = "L{" -> <<SFor(EVar(N_us), EList(<<EInt(1), EInt(2)>>), body)>>
+      \* the loop variable is x itself: every iteration has its own x (closures made in the body keep theirs)
+      [] t = "Lx{" -> <<SFor(EPat(<<EVar(N_us), x>>), EList(<<EInt(7), EInt(8)>>), body)>>
+      [] t = "Ox{" -> <<SFor(EPat(<<y, x>>), EObj(<<Pair(EStr(<<98>>), EInt(5)), Pair(EStr(<<97>>), EInt(6))>>), body)>>
       [] t = "W{" -> <<SDecl(EVar(WN(i)), EInt(0)),
                        SWhile(EBin("<", EVar(WN(i)), EInt(2)), <<SOpAssign(EVar(WN(i)), "+", EInt(1))>> \o body)>>
 
@@ -115,6 +118,17 @@ Fresh ==
                    <<"D", lp, "{", "T{", "Q", "K", "}", dd, "Q", "}", "}", "R">>,
                    <<"D", lp, "T{", "K", "}", "Q", dd, "B", "}", "R">>, <<"D", "F{", "T{", "Q", "}", dd, "Q", "}", "C1", "C1", "R">> }
                  : lp \in {"L{", "W{"}, dd \in {"D", "Dx", "A"} }
+\* a closure made in a nested scope before the enclosing scope declares x sees that x when called later
+Late ==
+    UNION { { pre \o <<o1, o2, "Q", "}", dd, "Q", "}", "R">>, pre \o <<o1, o2, o3, "Q", "}", "}", dd, "}", "R">>,
+              pre \o <<o1, "Dy", o2, "Q", "}", dd, "}", "R">>, pre \o <<"F{", o2, "Q", "}", dd, "}", "C1", "R">>,
+              pre \o <<o1, o2, "Q", "}", "Q", dd, "}", "R">> }
+            : pre \in {<<>>, <<"D">>}, o1 \in {"{", "I{", "L{", "T{"}, o2 \in {"{", "I{", "L{", "W{"}, o3 \in {"{", "I{"},
+              dd \in {"D", "Dx"} }
+LoopVar ==
+    UNION { { <<lp, "Q", "}", "R">>, <<"D", lp, "Q", "A", "}", "R">>, <<"D", lp, "{", "Q", "}", "Q", "}", "R">>,
+              <<"D", lp, "Q", "K", "}">>, <<lp, "Q", "D", "}">>, <<"D", lp, "F{", "R", "}", "C1", "C", "}", "C">>,
+              <<lp, "I{", "Q", "}", "A", "Q", "}">>, <<lp, lp, "Q", "}", "Q", "}">> } : lp \in {"Lx{", "Ox{"} }
 \* one assignment to several names that live in different scopes
 ShadowAssign ==
     { <<"D", "Dy">> \o ctx \o <<dd, sw, "R", "Ry">> \o Close(ctx) \o AfterCtx(ctx) \o <<"R", "Ry">> :
@@ -138,6 +152,8 @@ C04Params ==
     \cup { <<"fresh", s>> : s \in Fresh }
     \cup { <<"selfref", s>> : s \in SelfRef }
     \cup { <<"shadowassign", s>> : s \in ShadowAssign }
+    \cup { <<"late", s>> : s \in Late }
+    \cup { <<"loopvar", s>> : s \in LoopVar }
     \cup { <<"random", RandomSeqs[i].s>> : i \in {j \in 1 .. Len(RandomSeqs) : WellFormed(RandomSeqs[j].s)} }
 
 C04ProgOf(p) ==
